@@ -263,6 +263,10 @@ def decisions(res, unit):
         for k in (1, 2, n - 1):
             if 1 <= k <= n and len(set(fits)) == n:  # with ties the kept SET may legitimately differ only in tied members
                 both(f"topk({k})", topk(k), fits)
+        # boundary requests: nothing (k_elites = 0 is the non-elitist setting) and at least everything
+        both("topk(0)", topk(0), fits)
+        both("topk(n)", topk(n), fits)
+        both("topk(n+1)", topk(n + 1), fits)
         both("tournament", tournament, fits)
         if n >= 4:
             both("DE.run", de_step(False), fits)
